@@ -86,6 +86,13 @@ class Scratch:
         r = subprocess.run(['yacc', '-o', 'parse.c', 'parse.y'], cwd=self.src, capture_output=True, text=True)
         if r.returncode != 0:
             raise CheckError('yacc failed: ' + r.stderr[-2000:])
+        # copy of the generated parser whose driver calls a tracing wrapper around yylex (harness/unit/h_parse.c)
+        pc = open(os.path.join(self.src, 'parse.c'), encoding='latin-1').read()
+        traced, nsub = re.subn(r'=\s*yylex\s*\(\)', '= traced_yylex ()', pc)
+        if nsub < 1:
+            raise CheckError('cannot find the yylex() call of the generated parser')
+        with open(os.path.join(self.src, 'parse_traced.c'), 'w', encoding='latin-1') as fh:
+            fh.write(traced)
 
     FLAVOURS = {
         'asan': ['-O1', '-g', '-fsanitize=address,undefined', '-fno-sanitize-recover=all', '-fno-omit-frame-pointer'],
